@@ -512,4 +512,13 @@ def no_stale_lazy_cache(repo: Repo) -> RuleRun:
 
 no_stale_lazy_cache.rule_id = "C16.NO-STALE-CACHE"
 
-RULES = [knot_dependence, end_pairing, interface, closest_param_search, stale_alias, none_tests, no_memo, bounds_respected, range_start, no_stale_lazy_cache]
+def unit_axis(repo: Repo) -> RuleRun:
+    """'discretize, get_point and get_length describe the same curve': the circle's normal is used normalised wherever points are computed from it."""
+    from ..affine import unit_axis_rule
+
+    return unit_axis_rule(repo, PROP, "C16.UNIT-AXIS")
+
+
+unit_axis.rule_id = "C16.UNIT-AXIS"
+
+RULES = [knot_dependence, end_pairing, interface, closest_param_search, stale_alias, none_tests, no_memo, bounds_respected, range_start, no_stale_lazy_cache, unit_axis]
